@@ -416,8 +416,13 @@ use self::tfu::*;
                 proof {
                     lemma_transitions_follow(self, vehicle_idx, next_period_transitions@, maintenance_violation, tours@);
                     // (guarded: a wrong map or counter shows up at the tagged postconditions, not at the lemma's precondition)
-                    if ids_step(self, vehicle_idx, tours@, dummy_tours@, dummy_ids_sorted@, vehicle_counter, has_service(&self.network, removed)) {
-                        lemma_ids_stay_valid(self, vehicle_idx, tours@, dummy_tours@, dummy_ids_sorted@, vehicle_counter, has_service(&self.network, removed));
+                    // (the counter handed to Schedule::new is not named here: both candidate values are offered, so that a
+                    // change of that local shows up at the tagged postconditions and not as a lost anchor)
+                    if ids_step(self, vehicle_idx, tours@, dummy_tours@, dummy_ids_sorted@, self.vehicle_counter, has_service(&self.network, removed)) {
+                        lemma_ids_stay_valid(self, vehicle_idx, tours@, dummy_tours@, dummy_ids_sorted@, self.vehicle_counter, has_service(&self.network, removed));
+                    }
+                    if self.vehicle_counter < usize::MAX && ids_step(self, vehicle_idx, tours@, dummy_tours@, dummy_ids_sorted@, (self.vehicle_counter + 1) as usize, has_service(&self.network, removed)) {
+                        lemma_ids_stay_valid(self, vehicle_idx, tours@, dummy_tours@, dummy_ids_sorted@, (self.vehicle_counter + 1) as usize, has_service(&self.network, removed));
                     }
                 }
 //@end
